@@ -457,10 +457,11 @@ func (d *defaultRouteBuilder) AddRoute(method, path string, operation *spec.Oper
 	}
 
 	d.debugLogf("operation: %#v", *operation)
-	if handler, ok := d.api.HandlerFor(method, strings.TrimPrefix(path, bp)); ok {
+	specPath := d.specPathFor(mn, path, bp, operation)
+	if handler, ok := d.api.HandlerFor(method, specPath); ok {
 		consumes := d.analyzer.ConsumesFor(operation)
 		produces := d.analyzer.ProducesFor(operation)
-		parameters := d.analyzer.ParamsFor(method, strings.TrimPrefix(path, bp))
+		parameters := d.analyzer.ParamsFor(method, specPath)
 
 		// add API defaults if not part of the spec
 		if defConsumes := d.api.DefaultConsumes(); defConsumes != "" && !swag.ContainsStringsCI(consumes, defConsumes) {
@@ -490,6 +491,19 @@ func (d *defaultRouteBuilder) AddRoute(method, path string, operation *spec.Oper
 		})
 		d.records[mn] = append(d.records[mn], record)
 	}
+}
+
+// specPathFor recovers the path template under which the operation is declared in the spec.
+//
+// Trimming the base path from the joined route is not enough: joining cleans the path, which drops
+// the trailing slash of a template such as "/pets/" and the root template "/" altogether.
+func (d *defaultRouteBuilder) specPathFor(method, path, basePath string, operation *spec.Operation) string {
+	for declared, op := range d.analyzer.Operations()[method] {
+		if op == operation && fpath.Join(d.spec.BasePath(), declared) == path {
+			return declared
+		}
+	}
+	return strings.TrimPrefix(path, basePath)
 }
 
 func (d *defaultRouteBuilder) buildAuthenticators(operation *spec.Operation) RouteAuthenticators {
